@@ -63,3 +63,40 @@ Definition cp_normalize_q (R : nat) (w : option (list Q)) (fs scales : list (lis
       let w0 := match w with Some w => w | None => repeat 1 R end in
       cpn_loop R (repeat 1 R) (scale_cols_q R f0 w0 :: rest) scales tol
   end.
+
+(* ------------------------------------------------------------------ the same checks over the Gaussian rationals Q[i] (complex data) *)
+(* a complex number is a pair (re, im); orthonormality is M^H M = I and the Tucker core is the projection X x_k U_k^H,
+   core[j] = sum_i X[i] * prod_k conj(U_k[i_k, j_k])  (multi_mode_dot(X, factors, transpose=True) conjugates) *)
+Definition CQ := (Q * Q)%type.
+Definition c0 : CQ := (0, 0).
+Definition c1 : CQ := (1, 0).
+Definition cadd (a b : CQ) : CQ := (Qred (fst a + fst b), Qred (snd a + snd b)).
+Definition csub (a b : CQ) : CQ := (Qred (fst a - fst b), Qred (snd a - snd b)).
+Definition cmul (a b : CQ) : CQ := (Qred (fst a * fst b - snd a * snd b), Qred (fst a * snd b + snd a * fst b)).
+Definition cconj (a : CQ) : CQ := (fst a, Qred (- snd a)).
+Definition csum_list (l : list CQ) : CQ := fold_right cadd c0 l.
+Definition cwithin (x : CQ) (tol : Q) : bool := within (fst x) tol && within (snd x) tol.
+Definition centry (k : nat) (M : list CQ) (i c : nat) : CQ := nth (i * k + c) M c0.
+Definition ccol (k : nat) (M : list CQ) (c : nat) : list CQ := map (fun i => centry k M i c) (seq 0 (length M / k)).
+(* <a, b> = sum conj(a_i) b_i *)
+Definition cdot (a b : list CQ) : CQ := csum_list (map (fun p => cmul (cconj (fst p)) (snd p)) (combine a b)).
+Definition cgram_entry (k : nat) (M : list CQ) (a b : nat) : CQ := cdot (ccol k M a) (ccol k M b).
+Definition cdelta (a b : nat) : CQ := if Nat.eqb a b then c1 else c0.
+Definition corth_ok (k : nat) (M : list CQ) (tol : Q) : bool :=
+  forallb (fun a => forallb (fun b => cwithin (csub (cgram_entry k M a b) (cdelta a b)) tol) (seq 0 k)) (seq 0 k).
+Fixpoint cfprod (ranks : list nat) (fs : list (list CQ)) (idx jdx : list nat) : CQ :=
+  match ranks, fs, idx, jdx with
+  | r :: ranks', f :: fs', i :: idx', j :: jdx' => cmul (cconj (centry r f i j)) (cfprod ranks' fs' idx' jdx')
+  | _, _, _, _ => c1
+  end.
+Definition cindexed (shape : list nat) (X : list CQ) : list (CQ * list nat) := combine X (map (unravel shape) (seq 0 (prod shape))).
+Definition cproject_entry_ix (ranks : list nat) (xs : list (CQ * list nat)) (fs : list (list CQ)) (j : nat) : CQ :=
+  let jdx := unravel ranks j in csum_list (map (fun p => cmul (fst p) (cfprod ranks fs (snd p) jdx)) xs).
+Definition cproject_entry (shape ranks : list nat) (X : list CQ) (fs : list (list CQ)) (j : nat) : CQ :=
+  cproject_entry_ix ranks (cindexed shape X) fs j.
+Definition cprojection_ok (shape ranks : list nat) (X core : list CQ) (fs : list (list CQ)) (tol : Q) : bool :=
+  let xs := cindexed shape X in
+  (length core =? prod ranks) && (length X =? prod shape) &&
+  forallb (fun j => cwithin (csub (cproject_entry_ix ranks xs fs j) (nth j core c0)) tol) (seq 0 (prod ranks)).
+Definition ctucker_ok (shape ranks : list nat) (X core : list CQ) (fs : list (list CQ)) (tol_orth tol_proj : Q) : bool :=
+  forallb (fun p => corth_ok (fst p) (snd p) tol_orth) (combine ranks fs) && cprojection_ok shape ranks X core fs tol_proj.
